@@ -71,6 +71,8 @@ CLS_CFG = {
     "xml": ("application/atom+xml", "utf-8", True, "UTF-8"),
     "benc": ("application/octet-stream", None, False, "latin-1"),
     "noenc": ("image/png", None, True, None),
+    "ctcs": ("text/plain; charset=iso-8859-1", "UTF-8", False, "UTF-8"),
+    "ctcs2": ("application/x-thing;charset=ascii", None, False, "latin-1"),
 }
 # classes only the oracle drives (the model decodes strictly): name -> (base configuration, extra class attributes)
 ORACLE_CLS = {
@@ -613,9 +615,13 @@ def pre_state(r):
             "benc": r.default_body_encoding, "uerr": r.unicode_errors}
 
 
-def run_prefix(case, n):
+KEY_CTOR_ARG = "ctor:text-in-charset-argument-not-announced"
+
+
+def run_prefix(case, n, lenient_ctor=False):
     """Replay the first n ops on a fresh object against the reference.
-    Returns ("fail", key, text) | ("skip",) | ("ok", response, ref)."""
+    Returns ("fail", key, text) | ("skip",) | ("ok", response, ref).
+    lenient_ctor: the KEY_CTOR_ARG deviation of the constructor has been recorded already; go on from what it stored."""
     r = build(case)
     c = case["ctor"]
     if isinstance(r, Err):
@@ -634,12 +640,23 @@ def run_prefix(case, n):
         elif "json" in c:
             b = json.dumps(c["json"], separators=(",", ":")).encode("utf-8")
         elif "text" in c:
-            # encoded with the charset argument, else the Content-Type's charset (documented constructor rule)
-            cands = [c.get("charset"), fw.catch(lambda: r.charset), "UTF-8"]
+            # the bytes are the text in the charset the created response announces (Content-Type), or in
+            # default_body_encoding when it announces none: that is what .text and every client will decode with
             got = r.app_iter[0] if isinstance(r.app_iter, list) and len(r.app_iter) == 1 else None
-            encs = [fw.catch(c["text"].encode, x) for x in cands if isinstance(x, str) and x]
-            if got not in encs:
-                return ("fail", "ctor:text-encoding", "text body %r stored as %r" % (c["text"], got))
+            announced = fw.catch(lambda: r.charset)
+            dec = (announced if isinstance(announced, str) and announced else None) or r.default_body_encoding
+            want = fw.catch(c["text"].encode, dec) if dec else Err("no encoding")
+            if got != want:
+                kw = c.get("charset")
+                what = "text body %r given to the constructor is stored as %r; the response announces charset %r, " \
+                       "in which (else default_body_encoding %r) the text is %r" % (c["text"], got, announced, r.default_body_encoding, want)
+                if not (isinstance(announced, str) and announced) and isinstance(kw, str) and kw and got == fw.catch(c["text"].encode, kw):
+                    # documented: the charset= argument encodes the body even when it never reaches the Content-Type
+                    if not lenient_ctor:
+                        return ("fail", KEY_CTOR_ARG, what)
+                else:
+                    return ("fail", "ctor:text-not-in-announced-charset:" +
+                            ("headerlist-given" if "headerlist" in c else "no-headerlist"), what)
             b = got
         else:
             b = b""
@@ -732,9 +749,13 @@ def finish(r, ref, how):
 def oracle_history(case):
     """None, or (key, text, minimal failing case)."""
     n = len(case["ops"])
+    first = None        # the constructor deviation KEY_CTOR_ARG is recorded once; the rest of the history is still checked
     for k in range(0, n + 1):
         for how in ("GET", "HEAD", "READ"):
-            out = run_prefix(case, k)
+            out = run_prefix(case, k, first is not None)
+            if out[0] == "fail" and out[1] == KEY_CTOR_ARG and first is None:
+                first = (out[1], out[2], dict(case, ops=[], finish="GET"))
+                out = run_prefix(case, k, True)
             if out[0] == "skip":
                 break
             sub = dict(case, ops=case["ops"][:k], finish=how)
@@ -746,7 +767,7 @@ def oracle_history(case):
         else:
             continue
         break
-    return None
+    return first
 
 
 def oracle_ctor(case):
@@ -1097,6 +1118,25 @@ def rand_op(rng, model_only=False):
 def rand_ctor(rng, model_only=False):
     c = {}
     kinds = KINDS
+    if rng.random() < 0.12:
+        # the constructor's charset block: text body x content_type x charset= x headerlist
+        c["text"] = rng.choice(CT_TEXTS + TEXTS[:3])
+        ct = rng.choice(CT_CTYPES)
+        chs = rng.choice(CT_CHARSETS)
+        hl = rng.choice(CT_HEADERLISTS)
+        if model_only:
+            ct = None if ct and "utf-16" in ct else ct
+            chs = "latin-1" if chs == "utf-16" else chs
+            hl = None if hl and any("utf-16" in v for _, v in hl) else hl
+        if ct is not None:
+            c["content_type"] = ct
+        if chs != "marker":
+            c["charset"] = chs
+        if hl is not None:
+            c["headerlist"] = [list(h) for h in hl]
+        if rng.random() < 0.2:
+            c["status"] = rng.choice([200, 404, "299 Custom", 204])
+        return c
     x = rng.random()
     if x < 0.3:
         c["body"] = rand_bytes(rng)
@@ -1200,6 +1240,34 @@ def ctor_sweep(class_names):
                             c["content_type"] = ct
                         if chs != "marker":
                             c["charset"] = chs
+                        yield {"cls": cls, "ctor": c, "ops": [], "kind": "ctor"}
+
+
+CT_TEXTS = ["caf\xe9 \xfcber", "\u20ac", "ascii only"]
+CT_CTYPES = [None, "text/plain", "text/plain; charset=latin-1", "text/html;charset=utf-16", "application/xml; charset=ascii",
+             "application/foo", "text/plain; charset=utf-8"]
+CT_CHARSETS = ["marker", None, "utf-8", "latin-1", "utf-16", "ascii"]
+CT_HEADERLISTS = [None, [], [["Content-Type", "text/plain; charset=latin-1"]], [["content-type", "application/foo"]],
+                  [["Content-Type", "text/html; charset=UTF-8"], ["content-type", "text/plain; charset=utf-16"]]]
+
+
+def ctor_text_cases(class_names, model_only=False):
+    """Response(body=<str>, ...) in every combination of content_type carrying a charset or not x charset= argument x
+    headerlist given or not x class defaults (the configuration space of the constructor's charset block)."""
+    for cls in class_names:
+        for text in CT_TEXTS:
+            for ct in CT_CTYPES:
+                for chs in CT_CHARSETS:
+                    for hl in CT_HEADERLISTS:
+                        if model_only and ("utf-16" in (ct or "") or chs == "utf-16" or any("utf-16" in v for _, v in hl or [])):
+                            continue
+                        c = {"text": text}
+                        if ct is not None:
+                            c["content_type"] = ct
+                        if chs != "marker":
+                            c["charset"] = chs
+                        if hl is not None:
+                            c["headerlist"] = [list(h) for h in hl]
                         yield {"cls": cls, "ctor": c, "ops": [], "kind": "ctor"}
 
 
@@ -1334,11 +1402,16 @@ def run(ctx):
     hist += [model_case(rng, ctx.scale(8, 12)) for _ in range(ctx.scale(600, 6000))]
     correspond("history", hist)
     ctors = []
-    for _ in range(ctx.scale(250, 3000)):
+    for _ in range(ctx.scale(150, 3000)):
         case = model_case(rng, 1)
         case["ops"] = []
         ctors.append(case)
     correspond("constructor", ctors)
+    # the constructor's charset block: text body x content_type (with / without charset) x charset= x headerlist x class
+    ctext = list(ctor_text_cases(sorted(CLS_CFG), model_only=True))
+    if not ctx.thorough:
+        ctext = ctx.sub_rng("corr-ctor-text").sample(ctext, 250)
+    correspond("constructor-text", ctext)
     if ctx.thorough:
         # every history of depth <= 2 over the modelled part of the small universe, two starting points
         U = [o for o in small_universe() if o[0] != "file_write"]
@@ -1388,12 +1461,13 @@ def run(ctx):
                     yield {"cls": cls, "ctor": ctor, "ops": [list(o) for o in ops]}
     sweep("exhaustive-small", small())
     sweep("constructor", ctor_sweep(ALL_CLS if ctx.thorough else ["base", "benc", "lenient"]))
+    sweep("constructor-text", ctor_text_cases(ALL_CLS if ctx.thorough else ["base", "latin", "nodef", "ctcs", "ctcs2", "lenient"]))
     r3 = ctx.sub_rng("oracle-ctor")
     sweep("constructor-random", ({"cls": r3.choice(ALL_CLS), "ctor": rand_ctor(r3), "ops": [], "kind": "ctor"}
                                  for _ in range(ctx.scale(1000, 20000))))
 
     ctx.extra["rule"] = (
-        "correspondence: random constructor arguments x operation histories (<= %d steps over 22 operation kinds, 6 classes, "
+        "correspondence: random constructor arguments x operation histories (<= %d steps over 24 operation kinds, 10 classes, "
         "list / tuple / iterator / generator / file bodies, empty chunks) compared step by step (result or exception class, status, "
         "header list, app_iter type and chunks, final drain) between the Gallina model and real Response objects; counted "
         "distinct by Coq literal.  oracle: every prefix of every history finished by GET, HEAD and read+call_application and "
